@@ -385,6 +385,29 @@ def run(ctx, rep):
         else:
             rep.violation("C01.3", cons, f"the {part} of an alias slice is never printed: `map a r[0:4:2]` loses its {part}")
 
+    # each part is printed in its own position of `start:stop[:step]`
+    for f in tr.funcs:
+        if not any(isinstance(n, ast.Attribute) and n.attr == "step" for n in walk_no_nested(f.node)):
+            continue
+        fl = tr.flows[f.qualname]
+        for n in walk_no_nested(f.node):
+            if isinstance(n, ast.BinOp) and isinstance(n.op, ast.Mod) and isinstance(n.left, ast.Constant) and isinstance(n.left.value, str) and ":" in n.left.value and isinstance(n.right, ast.Tuple):
+                want = ["start", "stop", "step"][: len(n.right.elts)]
+                cons = construct_of(f, f"slice-positions:{len(want)}")
+                bad = None
+                for pos, (elt, part) in enumerate(zip(n.right.elts, want)):
+                    ids, roots = fl.depends(elt)
+                    exprs = [elt] + list(roots)
+                    parts = {m.attr for e in exprs for m in ast.walk(e) if isinstance(m, ast.Attribute) and m.attr in ("start", "stop", "step")}
+                    if parts and part not in parts:
+                        bad = (pos, part, parts)
+                    elif parts - {part}:
+                        bad = (pos, part, parts)
+                if bad:
+                    rep.violation("C01.3", cons, f"position {bad[0]} of `{n.left.value}` should print the slice's {bad[1]} but is computed from {sorted(bad[2])}: `map a r[1:4]` is written with the wrong bound", f"{f.path}:{n.lineno}")
+                else:
+                    rep.ok("C01.3", cons, f"`{n.left.value}` prints {', '.join(want)} in this order", f"{f.path}:{n.lineno}")
+
     # ------------------------------------------------------------ C01.5
     rep.rule("C01.5", "IR-valued holes go through the value printer (or the class prints its name)", floor=0)
     printer_funcs = {f.qualname for f, _ in printers}
